@@ -13,6 +13,25 @@ fn byte(pat: &str, i: usize) -> u8 {
     }
 }
 
+/// a sink of fixed capacity: a piece that does not fit is refused as a whole (and a later, smaller one may fit)
+struct Bounded {
+    cap: usize,
+    buf: String,
+    failed: bool,
+    calls: usize,
+}
+impl std::fmt::Write for Bounded {
+    fn write_str(&mut self, s: &str) -> std::fmt::Result {
+        self.calls += 1;
+        if self.buf.len() + s.len() > self.cap {
+            self.failed = true;
+            return Err(std::fmt::Error);
+        }
+        self.buf.push_str(s);
+        Ok(())
+    }
+}
+
 fn one<N>(n: usize, prec: i64, upper: bool, pat: &str, spec: &str, out: &mut dyn Write)
 where
     N: ArrayLength + Add<N>,
@@ -20,6 +39,21 @@ where
 {
     use generic_array::sequence::GenericSequence;
     let a: Box<GenericArray<u8, N>> = Box::<GenericArray<u8, N>>::generate(|i| byte(pat, i));
+    if let Some(cap) = spec.strip_prefix("sink:") {
+        use std::fmt::Write as _;
+        let mut b = Bounded { cap: cap.parse().unwrap(), buf: String::new(), failed: false, calls: 0 };
+        let p = prec.max(0) as usize;
+        let r = match (prec < 0, upper) {
+            (true, false) => write!(b, "{:x}", *a),
+            (true, true) => write!(b, "{:X}", *a),
+            (false, false) => write!(b, "{:.1$x}", *a, p),
+            (false, true) => write!(b, "{:.1$X}", *a, p),
+        };
+        let codes: Vec<String> = b.buf.bytes().map(|x| x.to_string()).collect();
+        writeln!(out, "{{\"ev\":\"hexsink\",\"n\":{},\"prec\":{},\"upper\":{},\"pat\":\"{}\",\"cap\":{},\"ok\":{},\"failed\":{},\"calls\":{},\"out\":[{}]}}",
+            n, prec, upper, pat, b.cap, r.is_ok(), b.failed, b.calls, codes.join(",")).unwrap();
+        return;
+    }
     let w = 2 * n + 5;
     let p = prec.max(0) as usize;
     let s = match (spec, prec < 0, upper) {
